@@ -211,7 +211,15 @@ pub fn run(cfg: &Cfg, rep: &mut Report) {
         let (words, _mask, _starts) = genmod::encode_module(genmod::random_version(rng), generator, gen.next_id, &pre, None);
         let rp = || crate::util::replay_ref(cfg, "loader-modules", idx);
         match catch(|| dr::load_words(&words)) {
-            Ok(Ok(m)) => {
+            Ok(Ok(mut m)) => {
+                // the parser does not keep the generator word (a loaded module always names rspirv itself): give the
+                // module value the input's generator, so that all registered tool names and unknown ids are rendered
+                if let Some(h) = m.header.as_mut() {
+                    if idx % 4 != 3 {
+                        h.generator = generator;
+                    }
+                    r.seen("generator_tools_rendered", format!("{:02}", (h.generator >> 16).min(99)));
+                }
                 if idx < 1 {
                     let t = m.disassemble();
                     r.sample(Json::obj().set("origin", "loader").set("disassembly_head", t.lines().take(12).map(Json::from).collect::<Vec<_>>()));
